@@ -295,7 +295,13 @@ class Cascade:
                 stage_results.append(stage_result)
 
                 if self.on_stage_complete:
-                    self.on_stage_complete(stage_result)
+                    # An observer is not part of the stage: its failure must not
+                    # be handled (and recorded) as a failure of the processor
+                    try:
+                        self.on_stage_complete(stage_result)
+                    except Exception as callback_error:
+                        if not self.silent:
+                            print(f"  ⚠️ on_stage_complete failed at {stage.name}: {callback_error}")
 
                 current_signal = output_signal
 
